@@ -761,6 +761,37 @@ class CFG:
                 out[src(n.ast)] = n.value
         return expand_equiv(out)
 
+    def compound_guards_at(self, nid):
+        """Outcomes of *compound* tests that the atomic branch facts cannot express: the node sits in the body of `if A or B:` (the
+        disjunction held) or in the else-part of `if A and B:` (the conjunction failed).  Structural: the statement is nested in
+        that arm of the compound statement, which is only entered with that outcome.  text -> outcome."""
+        n = self.nodes[nid]
+        target = n.ast
+        out = {}
+        if target is None:
+            return out
+
+        def inside(stmts):
+            return any(y is target for st in stmts for y in ast.walk(st))
+        for x in ast.walk(self.fn):
+            if not isinstance(x, (ast.If, ast.While)):
+                continue
+            t, pol = x.test, True
+            while isinstance(t, ast.UnaryOp) and isinstance(t.op, ast.Not):
+                t, pol = t.operand, not pol
+            if not isinstance(t, ast.BoolOp):
+                continue
+            arm = None
+            if inside(x.body):
+                arm = pol
+            elif isinstance(x, ast.If) and inside(x.orelse):
+                arm = not pol
+            if arm is None:
+                continue
+            if (isinstance(t.op, ast.Or) and arm is True) or (isinstance(t.op, ast.And) and arm is False):
+                out[src(t)] = arm
+        return out
+
     def facts_at(self, nid, ignore_exc=True):
         raw = self.facts(ignore_exc).get(nid, frozenset())
         return frozenset(expand_equiv(dict(raw)).items())
